@@ -243,7 +243,7 @@ func runC06(r *mc.Run) {
 			name string
 			t    time.Time
 		}
-		var vals, pairVals []tv
+		var vals, pairVals, zoneVals []tv
 		for _, e := range s.instants {
 			k := (e.Year()-world.T0.Year())*12 + int(e.Month()) - 1
 			for _, d := range []int{-1, 0, 1} {
@@ -253,6 +253,21 @@ func runC06(r *mc.Run) {
 					pairVals = append(pairVals, v)
 				}
 			}
+			// the same instants written in other zones, and instants between whole seconds (singles only): an
+			// instant is an instant, whatever its location or sub-second part
+			for _, z := range []struct {
+				n   string
+				loc *time.Location
+			}{{"utc-8", time.FixedZone("UTC-8", -8*3600)}, {"utc+5:30", time.FixedZone("UTC+5:30", 5*3600+1800)}} {
+				for _, d := range []int{-1, 0, 1} {
+					zoneVals = append(zoneVals, tv{fmt.Sprintf("m%+d%+ds@%s", k, d, z.n), e.Add(time.Duration(d) * time.Second).In(z.loc)})
+				}
+			}
+			for _, d := range []time.Duration{-time.Nanosecond, time.Nanosecond, 500 * time.Millisecond, -500 * time.Millisecond} {
+				zoneVals = append(zoneVals, tv{fmt.Sprintf("m%+d%+v", k, d), e.Add(d)})
+			}
+			zoneVals = append(zoneVals, tv{fmt.Sprintf("m%+d+1h@utc-8", k), e.Add(time.Hour).In(time.FixedZone("UTC-8", -8*3600))},
+				tv{fmt.Sprintf("m%+d-1h@utc+5:30", k), e.Add(-time.Hour).In(time.FixedZone("UTC+5:30", 5*3600+1800))})
 		}
 		type asg struct {
 			level int
@@ -265,6 +280,9 @@ func runC06(r *mc.Run) {
 			work = append(work, asg{level: l})
 			for f := 0; f < 5; f++ {
 				for _, v := range vals {
+					work = append(work, asg{l, []int{f}, []tv{v}})
+				}
+				for _, v := range zoneVals {
 					work = append(work, asg{l, []int{f}, []tv{v}})
 				}
 			}
